@@ -1,5 +1,6 @@
 import Proofs.LoopGen
 import Proofs.LoopLearn
+import Proofs.LoopGenEq
 
 /-!
 # C20 — training loops keep step and population accounting right
@@ -469,5 +470,135 @@ example : cond { kind := .maon, maxSteps := 60 } [{ cur := 20 }, { cur := 20 }] 
 -- the unrepaired tree: TD3.learn rejects the sampler's TensorDict, the table check fails
 example : tableOk [⟨"off", "TD3", "uniform", "tensordict", false⟩] = false := by decide
 example : learnCallsOff exCfg { ls := 2, bs := 8 } 0 = 2 := by decide
+
+/-! ### 9. source translation
+
+`Gen/LoopGen.lean` is generated by `harness/py2lean_loop.py` from the source text of the six training functions
+(loop structure, integer counters, budget test, learn scheduling, events in order; everything else sliced away after
+checking that it cannot write a counter).  `Proofs/LoopGenEq.lean` proves every generated loop equal to the model
+(`genRun_eq`); the main theorems are restated here over the generated loops.  `genRun k` / `genStep k` / `genCond k`
+select the generated `run` / `whileStep` / `cond` of the training function of kind `k`. -/
+
+open LoopGenEq in
+/-- the six generated training functions, run on arbitrary per-generation inputs, are the model's `run`
+    (tournament and mutation objects are arguments of the function: present in every generation or in none) -/
+theorem C20_source_translation_run_eq (c : Cfg) (tm : Bool) (ins : List GenIn) (s : LoopGen.St Mem Nat)
+    (h : ∀ i ∈ ins, i.sel.isSome = tm) :
+    stM c.kind (genRun c.kind (params c tm true) (ops c) s (ins.map (genIn c))) = run c (stM c.kind s) ins :=
+  genRun_eq c tm ins s h
+
+/-- environment steps / `env.step` calls of a generated agent's lineage (`train_offline` performs no environment
+    step: its counter counts learn steps) -/
+def gEnv (k : Kind) (a : LoopGen.Agent) : Nat := if k = .offline then a.env + a.learns else a.env
+def gIts (k : Kind) (a : LoopGen.Agent) : Nat := if k = .offline then a.its + a.learns else a.its
+
+/-- over the generated code: after any number of generations of any of the six training functions, every agent's
+    `steps[-1]` equals the environment steps its lineage took = `num_envs` × `env.step` calls -/
+theorem C20_source_translation_steps_equal_env_steps (c : Cfg) (tm : Bool) (ins : List GenIn)
+    (s : LoopGen.St Mem Nat) (hin : ∀ i ∈ ins, i.sel.isSome = tm)
+    (h : ∀ a ∈ s.pop, a.cur = gEnv c.kind a ∧ gEnv c.kind a = stride c * gIts c.kind a) :
+    ∀ a ∈ (LoopGenEq.genRun c.kind (LoopGenEq.params c tm true) (LoopGenEq.ops c) s (ins.map (LoopGenEq.genIn c))).pop,
+      a.cur = gEnv c.kind a ∧ gEnv c.kind a = stride c * gIts c.kind a := by
+  have hacc : Accounted c (LoopGenEq.stM c.kind s) := by
+    intro x hx
+    simp only [LoopGenEq.stM, List.mem_map] at hx
+    obtain ⟨a, ha, rfl⟩ := hx
+    exact h a ha
+  have := C20_steps_equal_env_steps c _ ins hacc
+  rw [← LoopGenEq.genRun_eq c tm ins s hin] at this
+  intro a ha
+  exact this (LoopGenEq.toM c.kind a) (by simp only [LoopGenEq.stM]; exact List.mem_map_of_mem ha)
+
+/-- the documented budget over a generated population -/
+def gBudgetMet (c : Cfg) (pop : List LoopGen.Agent) : Prop :=
+  match c.kind with
+  | .maon => c.maxSteps ≤ (pop.map (·.cur)).sum
+  | _ => ∃ a ∈ pop, c.maxSteps ≤ a.cur
+
+theorem gBudgetMet_iff (c : Cfg) (pop : List LoopGen.Agent) :
+    gBudgetMet c pop ↔ budgetMet c (pop.map (LoopGenEq.toM c.kind)) := by
+  unfold gBudgetMet budgetMet
+  cases c.kind <;> simp [sumCur, List.map_map, Function.comp_def]
+
+/-- over the generated code: a further generation runs iff the function has not returned and the budget (per
+    agent; summed for `train_multi_agent_on_policy`) is unmet, and once it is met nothing runs any more — the
+    generated loop stops in the first generation in which the budget is met -/
+theorem C20_source_translation_stops_first_generation_over_budget (c : Cfg) (s : LoopGen.St Mem Nat) (i : GenIn) :
+    ((LoopGenEq.genStep c.kind (LoopGenEq.params c i.sel.isSome true) (LoopGenEq.ops c) (LoopGenEq.genIn c i) s).gens
+        = s.gens + 1 ↔ (s.halted = false ∧ ¬ gBudgetMet c s.pop)) ∧
+    (gBudgetMet c s.pop → ∀ (tm : Bool) (ins : List (LoopGen.GenIn Nat)),
+      LoopGenEq.genRun c.kind (LoopGenEq.params c tm true) (LoopGenEq.ops c) s ins = s) := by
+  constructor
+  · have h := (C20_stops_first_generation_over_budget c (LoopGenEq.stM c.kind s) i).1
+    rw [← LoopGenEq.genStep_eq c i s] at h
+    rw [gBudgetMet_iff]
+    exact h
+  · intro hb tm ins
+    apply LoopGenEq.genRun_stop
+    rw [LoopGenEq.genCond_eq]
+    have : cond c (s.pop.map (LoopGenEq.toM c.kind)) = false := by
+      cases hc : cond c (s.pop.map (LoopGenEq.toM c.kind))
+      · rfl
+      · exact absurd ((gBudgetMet_iff c s.pop).mp hb) ((cond_iff_not_budgetMet c _).mp hc)
+    simp [this]
+
+/-- over the generated code: one fitness entry and one `steps` entry per agent and executed generation -/
+theorem C20_source_translation_one_fitness_per_generation (c : Cfg) (tm : Bool) (f0 h0 : Nat)
+    (s : LoopGen.St Mem Nat) (ins : List GenIn) (hin : ∀ i ∈ ins, i.sel.isSome = tm)
+    (h : ∀ a ∈ s.pop, a.fit = f0 + s.gens ∧ a.past.length = h0 + s.gens) :
+    let r := LoopGenEq.genRun c.kind (LoopGenEq.params c tm true) (LoopGenEq.ops c) s (ins.map (LoopGenEq.genIn c))
+    (∀ a ∈ r.pop, a.fit = f0 + r.gens ∧ a.past.length = h0 + r.gens) ∧ r.gens ≤ s.gens + ins.length := by
+  have hinv : FitInv f0 h0 (LoopGenEq.stM c.kind s) := by
+    intro x hx
+    simp only [LoopGenEq.stM, List.mem_map] at hx
+    obtain ⟨a, ha, rfl⟩ := hx
+    exact h a ha
+  obtain ⟨h1, h2⟩ := C20_one_fitness_per_generation c f0 h0 _ ins hinv
+  rw [← LoopGenEq.genRun_eq c tm ins s hin] at h1 h2
+  refine ⟨fun a ha => ?_, h2⟩
+  exact h1 (LoopGenEq.toM c.kind a) (by simp only [LoopGenEq.stM]; exact List.mem_map_of_mem ha)
+
+/-- over the generated code: the population keeps its size and pairwise distinct indices -/
+theorem C20_source_translation_population_size_indices (c : Cfg) (tm : Bool) (n : Nat) (ins : List GenIn)
+    (s : LoopGen.St Mem Nat) (hin : ∀ i ∈ ins, i.sel.isSome = tm) (hn : s.pop.length = n)
+    (hd : (s.pop.map (·.index)).Nodup)
+    (hv : ∀ i ∈ ins, ∀ sel, i.sel = some sel → sel.valid c.elitism n) :
+    let r := LoopGenEq.genRun c.kind (LoopGenEq.params c tm true) (LoopGenEq.ops c) s (ins.map (LoopGenEq.genIn c))
+    r.pop.length = n ∧ (r.pop.map (·.index)).Nodup := by
+  have hidx : ∀ p : List LoopGen.Agent, (p.map (LoopGenEq.toM c.kind)).map (·.index) = p.map (·.index) := by
+    intro p; simp [List.map_map, Function.comp_def, LoopGenEq.toM]
+  obtain ⟨h1, h2⟩ := C20_population_size_indices c n ins (LoopGenEq.stM c.kind s)
+    (by simp [LoopGenEq.stM, hn]) (by simp only [LoopGenEq.stM, hidx]; exact hd) hv
+  rw [← LoopGenEq.genRun_eq c tm ins s hin] at h1 h2
+  simp only [LoopGenEq.stM, List.length_map, hidx] at h1 h2
+  exact ⟨h1, h2⟩
+
+/-- over the generated code: the events of every executed trip round the loop of any of the six training functions,
+    in order — every agent trains, every agent is tested (one fitness entry each), the fitness list is appended, every
+    `steps` list is extended; then either the early return, or selection + mutation (if configured and due)
+    followed by the checkpoint (if due) -/
+theorem C20_source_translation_event_order (c : Cfg) (P : LoopGen.Params) (o : LoopGen.MemOps Mem)
+    (i : LoopGen.GenIn Nat) (s : LoopGen.St Mem Nat) (hs : s.halted = false)
+    (hc : LoopGenEq.genCond c.kind P s.pop = true) :
+    ∃ ret sel sav : Bool,
+      (LoopGenEq.genStep c.kind P o i s).events =
+        [.train, .test, .fitnessAppend, .stepsAppend] ++
+          (if ret then [.earlyReturn] else (if sel then [.select] else []) ++ (if sav then [.save] else [])) ∧
+      (LoopGenEq.genStep c.kind P o i s).halted = ret :=
+  LoopGenEq.genStep_events c.kind P o i s hs hc
+
+/-- the generated `train_off_policy`, 2 agents on 4 envs, `evo_steps = 10`, `max_steps = 20`, elitist tournament:
+    three generations of 8 steps, a fourth trip does nothing; checkpoint after the first -/
+def exGen : LoopGen.St Mem Nat :=
+  LoopGen.Off.start [{ index := 0, ls := 2, bs := 8 }, { index := 1, ls := 8, bs := 8, tag := 1 }] {} 1000
+example : (LoopGen.Off.run (LoopGenEq.params exCfg true true) (LoopGenEq.ops exCfg) exGen
+    ([exIn, exIn, exIn, exIn].map (LoopGenEq.genIn exCfg))).pop.map (·.cur) = [24, 24] := by decide
+example : (LoopGen.Off.run (LoopGenEq.params exCfg true true) (LoopGenEq.ops exCfg) exGen
+    ([exIn, exIn, exIn, exIn].map (LoopGenEq.genIn exCfg))).gens = 3 := by decide
+example : (LoopGen.Off.run (LoopGenEq.params exCfg true true) (LoopGenEq.ops exCfg) exGen
+    ([exIn].map (LoopGenEq.genIn exCfg))).events =
+    [.train, .test, .fitnessAppend, .stepsAppend, .select, .save] := by decide
+example : ∀ a ∈ exGen.pop, a.cur = gEnv exCfg.kind a ∧ gEnv exCfg.kind a = stride exCfg * gIts exCfg.kind a := by
+  decide
 
 end Loop
